@@ -1,5 +1,6 @@
 import DspVerif.Props.C08
 import DspVerif.Gen.StepsResample
+import DspVerif.Gen.CtorResample
 import DspVerif.Lib.RealFn
 import DspVerif.Lib.GenBridge
 /-!
@@ -552,4 +553,344 @@ theorem gen_rateconv_eq (L M : ℕ) (hL : 0 < L) (hM : 0 < M) (h : Array ℝ) (h
   rfl
 
 end
+/-! BEGIN steps3 constructors -/
+/-! ## Constructors of `FIRDecimator`, `FIRInterpolator`, `FIRRateConverter` and `IResampler::polyphase` (regenerated: `Gen/CtorResample.lean`) -/
+
+noncomputable section
+
+/-- `sum(const arr_real&)` (generated: a left fold) is the sum of the cells -/
+theorem sumR_eq_sum (a : Array ℝ) : Gen.sumR a = ∑ j ∈ Finset.range a.size, a.getD j 0 := by
+  unfold Gen.sumR
+  rw [← Array.foldl_toList]
+  have : ∀ (l : List ℝ) (z : ℝ), l.foldl (fun acc v => acc + v) z = z + ∑ j ∈ Finset.range l.length, l.getD j 0 := by
+    intro l
+    induction l with
+    | nil => intro z; simp
+    | cons x t ih =>
+      intro z
+      rw [List.foldl_cons, ih, List.length_cons, Finset.sum_range_succ']
+      simp only [List.getD_cons_succ, List.getD_cons_zero]
+      ring
+  rw [this]
+  simp only [fn_ofInt, Int.cast_zero, zero_add, Array.length_toList]
+  apply Finset.sum_congr rfl
+  intro j _
+  exact GenBridge.getD_toList a j 0
+
+/-- the zero-padded copy `zeropad(h, nh)` makes -/
+def padTo (h : Array ℝ) (nh : ℕ) : Array ℝ := h ++ Array.replicate (nh - h.size) 0
+
+theorem padTo_getD (h : Array ℝ) (nh j : ℕ) : (padTo h nh).getD j 0 = elem h j := by
+  unfold padTo elem
+  rw [getD_append', C08.zero_real]
+  by_cases hj : j < h.size
+  · rw [if_pos hj]
+  · rw [if_neg hj, getD_replicate, getD_of_ge h j 0 (by omega)]
+    split <;> rfl
+
+/-- `zeropad<real_t>(h, nh)` (generated) for `nh ≥ |h|`: no throw, the padded copy -/
+theorem zeropadR_eq (h : Array ℝ) (nh : ℕ) (hle : h.size ≤ nh) : Gen.zeropadR h (nh : Int) = .ok (padTo h nh) := by
+  unfold Gen.zeropadR padTo
+  have h1 : ¬ (Gen.arrSize h > (nh : Int)) := by simp only [Gen.arrSize, Int.ofNat_eq_natCast]; omega
+  rw [if_neg h1]
+  by_cases he : h.size = nh
+  · have h2 : Gen.arrSize h = (nh : Int) := by simp only [Gen.arrSize, Int.ofNat_eq_natCast]; exact_mod_cast he
+    rw [if_pos h2]
+    simp [he]
+  · have h2 : ¬ Gen.arrSize h = (nh : Int) := by
+      simp only [Gen.arrSize, Int.ofNat_eq_natCast]; intro e; exact he (by exact_mod_cast e)
+    rw [if_neg h2]
+    simp only [Gen.arrConcat, Gen.arrNew, Gen.zeroR, fn_ofInt, Int.cast_zero, Gen.arrSize, Int.ofNat_eq_natCast]
+    have : ((nh : Int) - (h.size : Int)).toNat = nh - h.size := by omega
+    rw [this]
+
+theorem paddedLen_cast (n m : ℕ) (hm : 0 < m) :
+    (if Int.tmod (n : Int) (m : Int) = 0 then (n : Int) else (Int.tdiv (n : Int) (m : Int) + 1) * (m : Int)) = ((paddedLen n m : ℕ) : Int) := by
+  rw [tmod_nat, tdiv_nat]
+  unfold paddedLen
+  by_cases h : n % m = 0
+  · rw [if_pos (by exact_mod_cast h), if_pos h]
+  · rw [if_neg (by intro e; exact h (by exact_mod_cast e)), if_neg h]
+    push_cast; ring
+
+theorem nh_eq (h : Array ℝ) (m : ℕ) (hm : 0 < m) :
+    (if Int.tmod (Gen.arrSize h) (m : Int) = 0 then Gen.arrSize h else (Int.tdiv (Gen.arrSize h) (m : Int) + 1) * (m : Int)) =
+      ((paddedLen h.size m : ℕ) : Int) := by
+  have e : Gen.arrSize h = (h.size : Int) := rfl
+  rw [e]
+  exact paddedLen_cast h.size m hm
+
+/-- the rows the two nested loops of `polyphase` build, before the optional flip -/
+theorem polyphase_loops (hq : Array ℝ) (m n : ℕ) (hm : 0 < m) (gain : ℝ) :
+    (List.range m).foldl (Gen.polyphase_loop2 hq (m : Int) gain (n : Int)) (Array.replicate m (Array.replicate n (0 : ℝ))) =
+      Array.ofFn (n := m) fun i => Array.ofFn (n := n) fun k => hq.getD (i.val + k.val * m) 0 * gain := by
+  -- one row: the inner loop rewrites row `i`
+  have hstep : (Gen.polyphase_loop2 hq (m : Int) gain (n : Int) : Array (Array ℝ) → Nat → Array (Array ℝ)) =
+      fun r i => r.setIfInBounds i ((fun (old : Array ℝ) (i : Nat) =>
+        (List.range n).foldl (fun (row : Array ℝ) (k : Nat) =>
+          row.setIfInBounds k (Gen.arrGet Gen.zeroR hq (Int.tmod ((m : Int) + (i : Int)) (m : Int) + (k : Int) * (m : Int)) * gain)) old)
+        (r.getD i #[]) i) := by
+    funext r i
+    simp only [Gen.polyphase_loop2, Int.ofNat_eq_natCast, Int.toNat_natCast]
+    have hf : (Gen.polyphase_loop1 hq (m : Int) gain (i : Int) : Array (Array ℝ) × Int → Nat → Array (Array ℝ) × Int) =
+        fun acc k => ((fun (r : Array (Array ℝ)) (ih : Int) (k : Nat) =>
+          r.setIfInBounds i ((r.getD i #[]).setIfInBounds k (Gen.arrGet Gen.zeroR hq ih * gain))) acc.1 acc.2 k, acc.2 + (m : Int)) := by
+      funext acc k
+      simp only [Gen.polyphase_loop1, Int.ofNat_eq_natCast, ptrSet_natCast, ptrGet_natCast, arrSet_natCast, mul_comm gain]
+    rw [hf, foldl_pair_counter (fun (r : Array (Array ℝ)) (ih : Int) (k : Nat) =>
+          r.setIfInBounds i ((r.getD i #[]).setIfInBounds k (Gen.arrGet Gen.zeroR hq ih * gain))) (m : Int) n r]
+    simp only
+    exact foldl_acc_cell (#[] : Array ℝ)
+      (fun (row : Array ℝ) (k : Nat) =>
+        row.setIfInBounds k (Gen.arrGet Gen.zeroR hq (Int.tmod ((m : Int) + (i : Int)) (m : Int) + (k : Int) * (m : Int)) * gain)) i (List.range n) r
+  have key := foldl_set_eq_ofFn (#[] : Array ℝ) (fun (old : Array ℝ) (i : Nat) =>
+        (List.range n).foldl (fun (row : Array ℝ) (k : Nat) =>
+          row.setIfInBounds k (Gen.arrGet Gen.zeroR hq (Int.tmod ((m : Int) + (i : Int)) (m : Int) + (k : Int) * (m : Int)) * gain)) old)
+    m (Array.replicate m (Array.replicate n (0 : ℝ))) (by simp)
+  rw [hstep]
+  refine key.trans ?_
+  apply Array.ext
+  · simp
+  · intro i h1 h2
+    simp only [Array.size_ofFn] at h1
+    simp only [Array.getElem_ofFn]
+    rw [getD_replicate, if_pos h1]
+    have := foldl_set_eq_ofFn (0 : ℝ)
+      (fun (_ : ℝ) (k : Nat) => Gen.arrGet Gen.zeroR hq (Int.tmod ((m : Int) + (i : Int)) (m : Int) + (k : Int) * (m : Int)) * gain)
+      n (Array.replicate n (0 : ℝ)) (by simp)
+    rw [this]
+    apply Array.ext
+    · simp
+    · intro k k1 k2
+      simp only [Array.size_ofFn] at k1
+      simp only [Array.getElem_ofFn]
+      have hi : Int.tmod ((m : Int) + (i : Int)) (m : Int) = (i : Int) := by
+        rw [show ((m : Int) + (i : Int)) = (((m + i : ℕ)) : Int) by push_cast; ring, tmod_nat]
+        congr 1
+        rw [Nat.add_mod_left, Nat.mod_eq_of_lt h1]
+      rw [hi, arrGet_eq Gen.zeroR hq _ (i + k * m) (by push_cast; ring)]
+      simp [Gen.zeroR]
+
+/-- the flip loop: every row reversed -/
+theorem polyphase_flip (r : Array (Array ℝ)) :
+    (List.range r.size).foldl Gen.polyphase_loop3 r = Array.ofFn (n := r.size) fun i => (r.getD i.val #[]).reverse := by
+  have hstep : (Gen.polyphase_loop3 : Array (Array ℝ) → Nat → Array (Array ℝ)) =
+      fun r i => r.setIfInBounds i ((fun (old : Array ℝ) (_ : Nat) => old.reverse) (r.getD i #[]) i) := by
+    funext r i
+    simp only [Gen.polyphase_loop3, Int.ofNat_eq_natCast, ptrSet_natCast, ptrGet_natCast, Gen.arrFlip]
+  rw [hstep]
+  exact foldl_set_eq_ofFn (#[] : Array ℝ) (fun (old : Array ℝ) (_ : Nat) => old.reverse) r.size r rfl
+
+/-- **bridge, `IResampler::polyphase`:** for every coefficient vector, every branch count `m ≥ 1`, gain and flip flag, the GENERATED
+`polyphase` (zero-pad to a multiple of `m` through the generated `zeropad`, divide by the generated `sum`, the two nested loops with
+the running index `ih`, the optional `flip` of every branch) does not throw and returns the model's table
+`r[i][k] = h[i + k' m] / Σh · gain`, `k' = k` or `n - 1 - k`. -/
+theorem polyphase_eq (h : Array ℝ) (m : ℕ) (hm : 0 < m) (gain : ℝ) (flip : Bool) :
+    Gen.polyphase h (m : Int) gain flip = .ok (Resample.polyphase h m gain flip) := by
+  obtain ⟨hle, _, hmod⟩ := C08.paddedLen_spec h.size m hm
+  unfold Gen.polyphase
+  simp only [nh_eq h m hm]
+  simp only [zeropadR_eq h _ hle, tdiv_nat, Gen.vecNew, Gen.arrNew, Int.toNat_natCast, Gen.zeroR, fn_ofInt, Int.cast_zero]
+  set nh := paddedLen h.size m with hnh
+  set n := nh / m with hn
+  have hS : Gen.sumR (padTo h nh) = accN (fun i => elem h i) nh (Resample.zero : ℝ) := by
+    rw [sumR_eq_sum, C08.accN_eq, C08.zero_real, zero_add]
+    have hsz : (padTo h nh).size = nh := by simp [padTo]; omega
+    rw [hsz]
+    exact Finset.sum_congr rfl (fun j _ => padTo_getD h nh j)
+  rw [polyphase_loops _ m n hm gain]
+  have hnm : n * m = nh := Nat.div_mul_cancel (Nat.dvd_of_mod_eq_zero hmod)
+  have hcell : ∀ i k, i < m → k < n →
+      (Gen.arrDivRR (padTo h nh) (Gen.sumR (padTo h nh))).getD (i + k * m) 0 * gain =
+        elem h (i + k * m) / accN (fun i => elem h i) nh (Resample.zero : ℝ) * gain := by
+    intro i k hi hk
+    have hlt : i + k * m < nh := by
+      rw [← hnm]
+      calc i + k * m < m + k * m := by omega
+        _ = (k + 1) * m := by ring
+        _ ≤ n * m := Nat.mul_le_mul_right m (by omega)
+    have hsz : (padTo h nh).size = nh := by simp [padTo]; omega
+    unfold Gen.arrDivRR
+    rw [Array.getD_eq_getD_getElem?, Array.getElem?_map, ← hS]
+    have : (padTo h nh)[i + k * m]? = some ((padTo h nh).getD (i + k * m) 0) := by
+      simp [Array.getD_eq_getD_getElem?, hsz, hlt]
+    rw [this, padTo_getD]
+    rfl
+  unfold Resample.polyphase
+  simp only [← hnh, ← hn]
+  cases flip with
+  | false =>
+    simp only [Bool.false_eq_true, if_false]
+    congr 1
+    unfold tab
+    apply Array.ext
+    · simp
+    · intro i h1 h2
+      simp only [Array.size_ofFn] at h1
+      simp only [Array.getElem_ofFn]
+      apply Array.ext
+      · simp
+      · intro k k1 k2
+        simp only [Array.size_ofFn] at k1
+        simp only [Array.getElem_ofFn]
+        exact hcell i k h1 k1
+  | true =>
+    simp only [if_true]
+    have hsz : (Array.ofFn (n := m) fun i => Array.ofFn (n := n) fun k =>
+        (Gen.arrDivRR (padTo h nh) (Gen.sumR (padTo h nh))).getD (i.val + k.val * m) 0 * gain).size = m := by simp
+    have := polyphase_flip (Array.ofFn (n := m) fun i => Array.ofFn (n := n) fun k =>
+        (Gen.arrDivRR (padTo h nh) (Gen.sumR (padTo h nh))).getD (i.val + k.val * m) 0 * gain)
+    rw [hsz] at this
+    rw [this]
+    congr 1
+    unfold tab
+    apply Array.ext
+    · simp
+    · intro i h1 h2
+      simp only [Array.size_ofFn] at h1
+      simp only [Array.getElem_ofFn]
+      rw [getD_ofFn, dif_pos h1]
+      apply Array.ext
+      · simp
+      · intro k k1 k2
+        simp only [Array.size_reverse, Array.size_ofFn] at k1
+        simp only [Array.getElem_reverse, Array.getElem_ofFn, Array.size_ofFn]
+        exact hcell i (n - 1 - k) h1 (by omega)
+
+/-! ### the three constructors -/
+
+theorem zeros_eq (n : ℕ) : (Resample.zeros n : Array ℝ) = Array.replicate n 0 := by
+  unfold Resample.zeros tab
+  apply Array.ext
+  · simp
+  · intro i h1 h2; simp [C08.zero_real]
+
+theorem ptrGet_row (th : Array (Array ℝ)) (k : ℕ) : Gen.ptrGet (#[] : Array ℝ) th (k : Int) = row th k := by
+  rw [ptrGet_natCast]; rfl
+
+/-- **bridge, `FIRInterpolator(int interp, const arr_real& h)`:** for every `interp ≥ 1` and every coefficient vector the generated
+constructor (generated `polyphase` with gain `real_t(interp_)` and flipped branches, `sublen_ = h_[0].size()`,
+`d_ = zeros(sublen_ - 1)`) does not throw and leaves the model's `Interp.init` -/
+theorem firInterpCtor_eq (L : ℕ) (hL : 0 < L) (h : Array ℝ) :
+    Gen.firInterpCtor (L : Int) h = .ok (toGenI (Interp.init L h)) := by
+  unfold Gen.firInterpCtor
+  simp only [fn_ofInt, Int.cast_natCast, polyphase_eq h L hL]
+  unfold Interp.init toGenI
+  simp only [fn_ofNat, zeros_eq, Gen.arrSize, Int.ofNat_eq_natCast, Gen.arrNew, Gen.zeroR, fn_ofInt, Int.cast_zero]
+  rw [show ((0 : Int)) = ((0 : ℕ) : Int) from rfl, ptrGet_row]
+  congr 3
+  omega
+
+theorem toNat_mul_pred (M sub : ℕ) (z : Int) (hz : z = (M : Int) * ((sub : Int) - 1)) : z.toNat = M * (sub - 1) := by
+  subst hz
+  rcases Nat.eq_zero_or_pos sub with h0 | h0
+  · subst h0
+    have : (M : Int) * (((0 : ℕ) : Int) - 1) = -(M : Int) := by push_cast; ring
+    rw [this]; simp
+  · have : ((M : Int) * ((sub : Int) - 1)) = ((M * (sub - 1) : ℕ) : Int) := by
+      push_cast
+      rw [Nat.cast_sub h0]; simp
+    rw [this, Int.toNat_natCast]
+
+/-- **bridge, `FIRDecimator(int decim, const arr_real& h)`** (`polyphase(h, decim_, 1.0, false)`, `d_ = zeros(decim_ * (sublen_ - 1))`) -/
+theorem firDecimCtor_eq (M : ℕ) (hM : 0 < M) (h : Array ℝ) :
+    Gen.firDecimCtor (M : Int) h = .ok (toGenD (Decim.init M h)) := by
+  unfold Gen.firDecimCtor
+  simp only [fn_ofInt, Int.cast_one, polyphase_eq h M hM]
+  unfold Decim.init toGenD
+  simp only [fn_ofNat, Nat.cast_one, zeros_eq, Gen.arrSize, Int.ofNat_eq_natCast, Gen.arrNew, Gen.zeroR, fn_ofInt, Int.cast_zero]
+  rw [show ((0 : Int)) = ((0 : ℕ) : Int) from rfl, ptrGet_row]
+  congr 3
+  exact toNat_mul_pred M _ _ (by push_cast; ring)
+
+/-- generated triple `(st, h_, xidxs_)` of the schedule loops against the model's `(st, [(branch, offset)])` -/
+def SchedRel (th : Array (Array ℝ)) (g : Int × Array (Array ℝ) × Array Int) (s : Nat × List (Nat × Nat)) : Prop :=
+  g.1 = (s.1 : Int) ∧ g.2.1 = (s.2.map fun p => row th p.1).toArray ∧ g.2.2 = (s.2.map fun p => Int.ofNat p.2).toArray
+
+theorem foldl_rel {A B ι : Type} (R : A → B → Prop) (f : A → ι → A) (g : B → ι → B)
+    (h : ∀ a b i, R a b → R (f a i) (g b i)) : ∀ (l : List ι) (a : A) (b : B), R a b → R (l.foldl f a) (l.foldl g b) := by
+  intro l
+  induction l with
+  | nil => intro a b hab; exact hab
+  | cons x l ih => intro a b hab; exact ih _ _ (h a b x hab)
+
+theorem sched_step (th : Array (Array ℝ)) (M i k : ℕ) (g : Int × Array (Array ℝ) × Array Int) (s : Nat × List (Nat × Nat))
+    (hr : SchedRel th g s) : SchedRel th (Gen.firRateCtor_loop1 (M : Int) th (i : Int) g k) (schedStep M k i s) := by
+  obtain ⟨h1, h2, h3⟩ := hr
+  unfold Gen.firRateCtor_loop1 schedStep SchedRel
+  simp only [Int.ofNat_eq_natCast, ptrGet_row, Gen.vecPush, h1, h2, h3]
+  by_cases hc : s.1 + 1 = M
+  · have hc' : ((s.1 : Int) + 1 = (M : Int)) := by exact_mod_cast hc
+    simp [hc, hc']
+  · have hc' : ¬ ((s.1 : Int) + 1 = (M : Int)) := by intro e; exact hc (by exact_mod_cast e)
+    simp [hc, hc']
+
+theorem sched_loops (th : Array (Array ℝ)) (L M : ℕ) :
+    SchedRel th ((List.range M).foldl (Gen.firRateCtor_loop2 (L : Int) (M : Int) th) ((0 : Int), #[], #[]))
+      (loopN (fun i s => loopN (fun k s => schedStep M k i s) L s) M (0, [])) := by
+  rw [loopN_eq_foldl]
+  apply foldl_rel (SchedRel th)
+  · intro g s i hr
+    have : Gen.firRateCtor_loop2 (L : Int) (M : Int) th g i =
+        (List.range L).foldl (Gen.firRateCtor_loop1 (M : Int) th (i : Int)) g := by
+      simp only [Gen.firRateCtor_loop2, Int.ofNat_eq_natCast, Int.toNat_natCast]
+    rw [this, loopN_eq_foldl]
+    exact foldl_rel (SchedRel th) _ _ (fun a b k hab => sched_step th M i k a b hab) _ _ _ hr
+  · exact ⟨rfl, rfl, rfl⟩
+
+/-- **bridge, `FIRRateConverter(int interp, int decim, const arr_real& h)`:** the generated constructor — generated `polyphase`,
+`sublen_`, `d_`, and the branch / offset schedule loops `st = st + 1; if (st == decim_) { h_.emplace_back(th[k]); xidxs_.push_back(i); st = 0; }`
+— does not throw and leaves the model's `RateConv.init`, for every `interp ≥ 1`, every `decim ≥ 0` -/
+theorem firRateCtor_eq (L M : ℕ) (hL : 0 < L) (h : Array ℝ) :
+    Gen.firRateCtor (L : Int) (M : Int) h = .ok (toGenRC (RateConv.init L M h)) := by
+  unfold Gen.firRateCtor
+  simp only [fn_ofInt, Int.cast_natCast, polyphase_eq h L hL]
+  obtain ⟨h1, h2, h3⟩ := sched_loops (polyphase h L (L : ℝ) true) L M
+  unfold RateConv.init toGenRC schedule
+  simp only [fn_ofNat, zeros_eq, Gen.arrSize, Int.ofNat_eq_natCast, Gen.arrNew, Gen.zeroR, fn_ofInt, Int.cast_zero, Int.toNat_natCast]
+  rw [show ((0 : Int)) = ((0 : ℕ) : Int) from rfl, ptrGet_row]
+  simp only [Nat.cast_zero] at h2 h3 ⊢
+  rw [h2, h3]
+  have hx : ∀ l : List (Nat × Nat), Array.map Int.ofNat (List.map (fun p => p.2) l).toArray = (List.map (fun p => Int.ofNat p.2) l).toArray := by
+    intro l; rw [List.map_toArray, List.map_map]; rfl
+  have hd : (((row (polyphase h L (L : ℝ) true) 0).size : Int) - 1).toNat = (row (polyphase h L (L : ℝ) true) 0).size - 1 := by omega
+  rw [hx, hd]
+
+/-! ### the transported theorems, from the GENERATED constructors -/
+
+/-- **T08.2 from the GENERATED constructor:** `FIRInterpolator(L, h)` constructed by the regenerated constructor, first call of the
+regenerated `process`: the first `|x|·L` samples of the textbook chain (zero-stuff by `L`, filter with `h` normalised to DC gain `L`) -/
+theorem gen_interp_from_ctor (L : ℕ) (hL : 0 < L) (h : Array ℝ) (hh : 0 < h.size) (hs : C08.hsum h ≠ 0) (x : Array ℝ) :
+    (Gen.firInterpCtor (L : Int) h).bind (fun o => Gen.firInterpProcess o x) =
+      .ok (toGenI (C08.interpAt L h x), tab (x.size * L) fun o => C08.upfir L h x o) := by
+  rw [firInterpCtor_eq L hL h, C08.interp_init L hL h]
+  have := gen_interp_eq L hL h hh hs #[] x
+  simpa [Except.bind, bind] using this
+
+/-- **T08.3 from the GENERATED constructor** -/
+theorem gen_decim_from_ctor (M : ℕ) (hM : 0 < M) (h : Array ℝ) (hh : 0 < h.size) (hs : C08.hsum h ≠ 0) (x : Array ℝ)
+    (hx : x.size % M = 0) :
+    (Gen.firDecimCtor (M : Int) h).bind (fun o => Gen.firDecimProcess o x) =
+      .ok (toGenD (C08.decimAt M h x),
+        tab (x.size / M) fun i => C08.fir (paddedLen h.size M) (C08.hflip h M) (elem x) (i * M + (M - 1))) := by
+  rw [firDecimCtor_eq M hM h, C08.decim_init M hM h]
+  have := gen_decim_eq M hM h hh hs #[] x hx
+  simpa [Except.bind, bind] using this
+
+/-- **T08.5 from the GENERATED constructor** -/
+theorem gen_rateconv_from_ctor (L M : ℕ) (hL : 0 < L) (hM : 0 < M) (h : Array ℝ) (hh : 0 < h.size) (hs : C08.hsum h ≠ 0)
+    (x : Array ℝ) (hx : x.size % M = 0) :
+    (Gen.firRateCtor (L : Int) (M : Int) h).bind (fun o => Gen.firRateProcess o x) =
+      .ok (toGenRC (C08.rateAt L M h x), tab (x.size / M * L) fun o => C08.upfir L h x ((o + 1) * M - 1)) := by
+  rw [firRateCtor_eq L M hL h, C08.rateconv_init L M hL h]
+  have := gen_rateconv_eq L M hL hM h hh hs #[] x (by simp) hx
+  simpa [Except.bind, bind] using this
+
+/-- the default arguments of `IResampler::polyphase(h, m, gain = 1.0, flip_coeffs = false)` -/
+theorem polyphase_defaults : ((Gen.polyphaseDefault_gain : ℝ), Gen.polyphaseDefault_flip_coeffs) = (1, false) := by
+  simp [Gen.polyphaseDefault_gain, Gen.polyphaseDefault_flip_coeffs]
+
+end
+/-! END steps3 constructors -/
+
 end Dsp.C08Gen
